@@ -589,6 +589,23 @@ theorem has_relationship_total (rows : List RowX) (fuel : Nat) (hf : fuelFor (ma
   ⟨hasRelationship_total rows fuel hf recs lf hlf rel term target s,
    hasRelationship_unknown fuel lf (makeX rows) recs rel term target s⟩
 
+
+open Hs.NsA in
+/-- `rel?` / `rel? ^term` (no target ref) on a record that has an `id`: no Ref is followed, the reciprocal is never
+consulted; the answer is "`rel` inherits from `relationship` and some tag of the record has a def whose `rel` tag is
+a Symbol that fits the term" -/
+theorem has_relationship_without_target (rows : List RowX) (fuel : Nat) (hf : fuelFor (makeX rows).ns.defs ≤ fuel)
+    (recs : List RecX) (lf : Nat) (rel : Name) (term : Option Name) (s : RecX) (hid : s.id ≠ none)
+    (rd : DefX) (hg : getX (makeX rows).xd rel = some rd) :
+    ∃ inh, inheritance fuel (makeX rows).ns rel = .ok inh ∧
+      NsA.hasRelationship fuel (lf + 1) (makeX rows) recs rel term none s =
+        .ok (inh.contains nRelationship &&
+          s.tags.any (fun t => defVal fuel (makeX rows) term t.key rel == FLoops.DefVal.sym true)) := by
+  have hns : (makeX rows).ns = make (rows.map RowX.toRow) := rfl
+  obtain ⟨inh, hi, _⟩ := Ns.inheritance_spec (rows.map RowX.toRow) fuel (by rw [← hns]; exact hf) rel
+  rw [← hns] at hi
+  exact ⟨inh, hi, hasRelationship_no_target fuel lf (makeX rows) recs rel term s hid rd hg inh hi⟩
+
 /-! Non-vacuity (part 2): a miniature of the standard library.  `tagOn` is a plain association, `tags` is computed
 from it; `ahu is [equip]`; `foo tagOn [equip]`, `bar tagOn [ahu, nowhere]`; `equip` is mandatory; `ahu-foo` is a
 conjunct; `containedBy` is a transitive relationship. -/
